@@ -7,6 +7,7 @@ import vlib, apidrive
 TEST = 'TestVerifC11'
 
 ASSUME = [
+    'request body (TestVerifC11Body): a POST on the attacker\'s own session with its own correct secret whose body carries, besides Data and ClientMessageId, the other members of the replicated message structure (Session, Id, Type, RemoteAddr, UnixNano, Revision) naming the victim: applied to, and committed for, the authenticated session only',
     'open connection (TestVerifC11Open): the victim has a GetMessages request parked at the end of its stream; GET / POST / DELETE on its session id with a missing / wrong / foreign / one-character credential; a message sent to the victim afterwards must still arrive on that same connection',
     'parked requests (TestVerifC11Park): GET messages / POST message / DELETE on the id the NEXT session will get (message offset + next raft index), with a wrong / another session\'s / a same-length / a one-character credential, sent before the victim creates exactly that session, logs in and is sent a private message: never answered 200, never carries the victim\'s messages, never ends the session, never committed',
     'single-node network in-process: real hashicorp/raft (in-memory transport), real FSM, real LevelDB raftlog/irclog, FileSnapshotStore; the real api.HTTP.DispatchPublic / DispatchPrivate are called through httptest (no TLS listener, no net/http mux: the mux of robustirc.go sends /robustirc/v1/ to DispatchPublic and everything else to DispatchPrivate, the harness does the same)',
@@ -172,6 +173,7 @@ def run(tier):
     # parked requests: a request on a session id that does not exist yet, then the victim creates that session
     rp = vlib.run_workers(binary, 'TestVerifC11Park', 12, env={'GOMAXPROCS': '2'})
     rp += vlib.run_workers(binary, 'TestVerifC11Open', 12, env={'GOMAXPROCS': '2'})
+    rp += vlib.run_workers(binary, 'TestVerifC11Body', 1, env={'GOMAXPROCS': '2'})
     perr = [r['harness_error'] for r in rp if r.get('harness_error')]
     if perr:
         print('HARNESS-ERROR: ' + perr[0])
